@@ -88,7 +88,32 @@ def _inputs(ctx, mod):
                         ins.append({"id": "e%d" % pk, "cast": "write-edit-write", "ops": [
                             mk(a), dict(w, set="s1"), {"op": "edit", "set": "s1", "edit": edit}, dict(w, set="s1"),
                             {"op": "edit", "set": "s1", "edit": "retime"}, dict(w, set="s1")]})
+        # arguments of one write() call (force=, lang=) hold for that call: the same writer object,
+        # called without them afterwards, writes what a fresh one writes
+        pk = 0
+        multi = [("build", "b_multi"), ("DFXP", "dfxp2"), ("SAMI", "sami4"), ("SAMI", "sami1")]
+        for kind, arglist in session.WRITE_ARGS.items():
+            for opts in session.WRITER_CONFIGS[kind]:
+                for args in arglist:
+                    for a in multi:
+                        pk += 1
+                        w = {"op": "write", "writer": "w", "kind": kind, "opts": opts}
+                        ins.append({"id": "a%d" % pk, "cast": "call-arguments", "ops": [
+                            mk(a), dict(w, set="s1", args=args), dict(w, set="s1"), dict(w, set="s1", args=args), dict(w, set="s1")]})
     else:
+        # reader objects made with constructor options, reused over two documents
+        from . import corpus as _c0
+        for kd, ctors in session.READER_CTOR.items():
+            ds = [d for d, (k0, _) in _c0.docs().items() if k0 == kd]
+            pk = 0
+            for ctor in ctors:
+                for a in ds:
+                    for b in ds:
+                        pk += 1
+                        if ctx.quick and pk % 2:
+                            continue
+                        rd = lambda d: {"op": "read", "reader": "shared", "kind": kd, "doc": d, "ctor": ctor}
+                        ins.append({"id": "c%s%d" % (kd, pk), "cast": "reader-options", "ops": [rd(a), rd(b), rd(a)]})
         # every ordered pair of documents of one format through one shared reader object
         from . import corpus
         kinds = {}
